@@ -112,6 +112,26 @@ func maximalSimplePaths(w WL, outbound bool) []string {
 	return res
 }
 
+// acyclicFrom: the subgraph reachable from the root has no directed cycle (self loops included).
+func acyclicFrom(w WL, outbound bool) bool {
+	state := map[int]int{}
+	var visit func(n int) bool
+	visit = func(n int) bool {
+		state[n] = 1
+		for _, e := range adj(w, n, outbound) {
+			if state[e.To] == 1 {
+				return false
+			}
+			if state[e.To] == 0 && !visit(e.To) {
+				return false
+			}
+		}
+		state[n] = 2
+		return true
+	}
+	return visit(w.Root)
+}
+
 func reachable(w WL, outbound bool) map[int]bool {
 	seen := map[int]bool{w.Root: true}
 	q := []int{w.Root}
@@ -272,6 +292,9 @@ func execSeq(t *testing.T, w WL, cfg simrt.Config) simh.Outcome {
 					o.Class, o.Detail = "oracle:seq_terminals", fmt.Sprintf("AcyclicTraverseTerminals misses reachable sink %d", n)
 				}
 			}
+			// No more than this is asserted: which interior nodes the helper also reports depends on the order in
+			// which converging branches are visited (on 2->1, 2->4, 4->1, 1->3 from root 2 the unchanged helper
+			// reports node 1, which has an onward relationship), so "exactly the sinks" would be a false alarm.
 		}
 	case "intermediary":
 		// every collected path is a simple path from the root along existing edges
